@@ -383,6 +383,29 @@ static void run_splice(void)
 	final_checks("splice");
 }
 
+/* locked API only: a dequeuer of the SOURCE queue races with a splice out of it (both take the source's dequeue lock) */
+static void run_splice_src(void)
+{
+	pthread_t a, b;
+
+	q_init();
+	do_enq(0, 4);
+	do_enq(0, 5);
+	pthread_create(&a, NULL, t_enq1, NULL);
+	pthread_create(&b, NULL, t_splice, NULL);
+	do_deq(0);
+	do_deq(0);
+	pthread_join(a, NULL);
+	pthread_join(b, NULL);
+	while (do_deq(0) > 0)
+		;
+	while (do_deq(1) > 0)
+		;
+	do_empty(0);
+	do_empty(1);
+	final_checks("splice_src");
+}
+
 static void *t_splice_rev(void *a) { (void)a; do_enq(1, 2); return NULL; }
 
 /* destination being enqueued to while it receives a splice */
@@ -492,6 +515,7 @@ struct vrt_scenario vrt_scenarios[] = {
 	{ "last", run_last, "enqueue racing with dequeue of the last node and empty()" },
 	{ "mpmc", run_mpmc, "enqueuer || 2 locked dequeuers" },
 	{ "splice", run_splice, "enqueuer(s) on src || splice src->dst || dequeue dst; param pre, enq2, api" },
+	{ "splice_src", run_splice_src, "locked API: dequeue of the source || splice out of it || enqueue" },
 	{ "splice_dst", run_splice_dst, "enqueue on dst || splice src->dst || dequeue dst" },
 	{ "iter", run_iter, "iteration || enqueuers" },
 	{ "legacy", run_legacy, "legacy cds_wfq: 2 enqueuers || 2 dequeuers" },
